@@ -11,7 +11,7 @@ from hypothesis import strategies as st
 import harness.compat  # noqa: F401
 from harness import refmodel as rm
 from harness import strategies as S
-from harness.build import mkcollection, chrom_parent, chunk_parent
+from harness.build import mkcollection, chrom_parent, chunk_parent, as_container
 from harness.core import Leg, Prop
 from harness.readers import read_gff3, attrs_dict, FormatError
 from inscripta.biocantor.io.gff3.exc import GFF3ExportException
@@ -303,7 +303,7 @@ def check_multi(spec, ctx):
     buf = io.StringIO()
     with warnings.catch_warnings():
         warnings.simplefilter("ignore")
-        collection_to_gff3(colls, buf, add_sequences=spec["fasta"], ordered=spec["ordered"])
+        collection_to_gff3(as_container(colls, spec.get("container", "list")), buf, add_sequences=spec["fasta"], ordered=spec["ordered"])
     text = buf.getvalue()
     try:
         doc = read_gff3(text)
@@ -368,7 +368,8 @@ def strat_multi(draw, tier="quick"):
                 t["protein_id"] = "%s_p%d_%d" % (nm, gi, ti) if "cds" in t else None
         n = hi + draw(st.integers(1, 6))
         parts.append({"name": nm, "obj": o, "genome": draw(S.dna(n, n))})
-    return {"parts": parts, "fasta": draw(st.booleans()), "ordered": draw(st.sampled_from([True, True, False]))}
+    return {"parts": parts, "fasta": draw(st.booleans()), "ordered": draw(st.sampled_from([True, True, False])),
+            "container": draw(st.sampled_from(["list", "tuple", "generator", "iterator"]))}
 
 
 # ------------------------------------------------------------------------------------ re-parse leg
